@@ -46,6 +46,9 @@ def run(ctx):
     ctx.check(ctor.local_name(1) == "w" and ctor.local_name(2) == "d", "R08-dependency", ctor.key + ":params", ctor, "constructor parameters are (w, d, hasher)", "constructor parameter order changed")
     from .common import double_hashing_rules
     double_hashing_rules(ctx, "R08-double-hashing")
+    # the (epsilon, delta) dimensions must survive clear(): C19's clear rules on the sketch
+    from .C19 import run_clear_rules
+    run_clear_rules(ctx, only_adt=CMS, floor=1)
     env = float_facts_to_env(atomic_facts(f, prog, bi, tb))
     for name, term in (("w", cols), ("d", rows)):
         iv = ieval(term, env)
